@@ -36,7 +36,9 @@ def parseCfg (s : String) : Cfg :=
   let m := kv s
   { otmp := look m "otmp" "1" == "1", sidecar := look m "sidecar" "0" == "1", verDir := look m "verdir" "0" == "1",
     vstatus := (match look m "vstatus" "off" with | "enabled" => .enabled | "suspended" => .suspended | _ => .off),
-    bucket := look m "bucket" "b", atomicReplace := look m "areplace" "0" == "1", tagsFirst := look m "tagsfirst" "0" == "1" }
+    bucket := look m "bucket" "b", atomicReplace := look m "areplace" "0" == "1", tagsFirst := look m "tagsfirst" "0" == "1",
+    copyTagsFirst := look m "copytagsfirst" "0" == "1", lock := look m "lock" "0" == "1",
+    holdFirst := look m "holdfirst" "0" == "1" }
 
 def parseReq (s : String) : Option Req := do
   let m := kv s
@@ -44,7 +46,7 @@ def parseReq (s : String) : Option Req := do
     | "put" => some Op.put | "copy" => some Op.copy | "delete" => some Op.delete
     | "uploadpart" => some Op.uploadPart | "complete" => some Op.complete | _ => none
   pure { op := op, key := decP (look m "key" "-"), data := look m "data" "new", falloc := look m "falloc" "1" == "1",
-         metaKeys := plusList (look m "meta" "-"), ctype := look m "ctype" "0" == "1", tags := look m "tags" "0" == "1",
+         metaKeys := plusList (look m "meta" "-"), ctype := look m "ctype" "0" == "1", tags := look m "tags" "0" == "1", hold := look m "hold" "0" == "1",
          src := decP (look m "src" "-"), upload := look m "upload" "", partNo := look m "part" "1",
          parts := plusList (look m "parts" "-"), tmp := look m "tmp" "TMP", newVid := look m "newvid" "new" }
 
@@ -92,12 +94,13 @@ def opt (o : Option String) : String := match o with | some v => encV v | none =
 def optNE (o : Option String) : String := match o with | some v => if v == "" then "-" else v | none => "-"
 def vidNE (v : String) : String := if v == "" then "null" else v
 
-def showGet (v : Option ObjView) : String :=
+def showGet (v : Option ObjView) (lock : Bool := false) : String :=
   match v with
   | none => "404"
   | some o =>
     let m := if o.umeta.isEmpty then "-" else "+".intercalate (sortStrings (o.umeta.map (fun e => e.1 ++ "=" ++ encV e.2)))
-    s!"{encV o.data},{opt o.etag},{opt o.ctype},{m},{opt (o.vid.map vidNE)},{opt o.tags}"
+    -- the legal hold is a seventh field in object-lock buckets only
+    s!"{encV o.data},{opt o.etag},{opt o.ctype},{m},{opt (o.vid.map vidNE)},{opt o.tags}" ++ (if lock then "," ++ opt o.hold else "")
 
 def showList (l : Option (Option Val)) : String :=
   match l with
@@ -120,9 +123,9 @@ def showUploads (cfg : Cfg) (fs : FS) (key : Path) : String :=
     u ++ ":" ++ ps)))
 
 def obsOf (cfg : Cfg) (fs : FS) (key okey : Path) : Obs :=
-  { get := (if getBroken cfg fs key then "!500" else showGet (view cfg fs key)), list := showList (listed cfg fs key), ver := (if cfg.verDir && cfg.vstatus != .off then (if versionsBroken cfg fs key then "!500" else showVers (versions cfg fs key)) else "-"),
+  { get := (if getBroken cfg fs key then "!500" else showGet (view cfg fs key) cfg.lock), list := showList (listed cfg fs key), ver := (if cfg.verDir && cfg.vstatus != .off then (if versionsBroken cfg fs key then "!500" else showVers (versions cfg fs key)) else "-"),
     up := showUploads cfg fs key,
-    other := if okey.isEmpty then "-" else showGet (view cfg fs okey) ++ "|" ++ showList (listed cfg fs okey),
+    other := if okey.isEmpty then "-" else showGet (view cfg fs okey) cfg.lock ++ "|" ++ showList (listed cfg fs okey),
     blocked := blocked cfg fs }
 
 def showObs (o : Obs) : String :=
